@@ -200,9 +200,13 @@ Menu12 == <<
   \* cross-key groups in Url and Map calls (no per-call function): all members empty - one group clause
   DUrl("m27", <<E("u1", Se), E("u2", Se), E("u3", Sab)>>, <<RME("u1", <<R_either>>), RME("u2", <<R_either>>), RME("u3", <<R_req>>)>>, <<>>),
   DMap("m28", <<E("k1", I(0)), E("k2", I(0))>>, <<RME("k1", <<R_either>>), RME("k2", <<R_either>>)>>, <<>>),
-  DUrl("m29", <<E("u1", Se), E("u2", Sab)>>, <<RME("u1", <<R_either>>), RME("u2", <<R_either>>)>>, <<>>) >>  \* one member set: satisfied
+  DUrl("m29", <<E("u1", Se), E("u2", Sab)>>, <<RME("u1", <<R_either>>), RME("u2", <<R_either>>)>>, <<>>),   \* one member set: satisfied
+  \* a per-call function that panics in the middle of the walk (after an either member was registered and a clause was
+  \* written), the caller recovers: the call itself has no result to speak of, every LATER call is as if it had not happened
+  DStruct("m30", "T4", "valid", ValsC("T4")[2], <<>>, <<RME("E1", <<R_either>>), RME("E2", <<R_either, R_fn("p_panic")>>)>>, <<"p_panic", "p_t4">>),
+  DStruct("m31", "T1", "valid", ValsA("T1")[2], <<>>, <<RME("A", <<R_fn("p_t4"), R_fn("p_panic")>>)>>, <<"p_panic", "p_t4">>) >>
 \* descriptors on which the contract fixes only THAT the call fails
-FreeKeys == {"m24"}
+FreeKeys == {"m24", "m30", "m31"}
 
 (* the product family used by the concurrent streams *)
 NT == Len(RootTypes)
